@@ -76,16 +76,17 @@ Section Sim2.
         * destruct SH as (-> & ->). split; [reflexivity|assumption].
         * left. destruct SH as (-> & SH1 & SH2). split; [reflexivity|]. lia.
         * destruct SH as (-> & ->). split; [reflexivity|assumption].
-    - intros n s rs D prog brk K IV RD DO B CA. destruct n; [exact Logic.I|]. rewrite HE.
+    - intros n s rs D prog brk F EF WF K IV RD DO B CA. destruct n; [exact Logic.I|]. rewrite HE.
+      assert (EF2 : ext st2 F) by (eapply ext_trans; eauto).
+      assert (EF0 : ext st F) by (eapply ext_trans; eauto).
       rewrite HK in K.
       norm_code CA. apply cares_app in CA as [CA1 CA2].
-      assert (IV1 : inv st1 D s rs) by (eapply inv_ext; eauto).
       assert (RDa : forall x, D x = true -> reads x a = false).
       { intros x Dx. rewrite <- HRd. auto. }
       assert (B1 : tbase st1 + tused st2 <= N.of_nat (length rs)).
       { pose proof (ext_used _ _ E2'). lia. }
       rewrite <- I1 in CA1.
-      specialize (DA n s rs D prog brk K IV1 RDa (dest_ok_any _ _ _ _) B1 CA1).
+      specialize (DA n s rs D prog brk F EF2 WF K IV RDa (dest_ok_any _ _ _ _) B1 CA1).
       destruct (eval n s a) as [va s1| | | |]; try contradiction; [|rewrite <- I1; exact DA|exact Logic.I].
       destruct DA as (rs1 & S1 & LN1 & IVa & RA & FRa & SFa).
       apply dirty_any in IVa. specialize (RA _ OL).
@@ -114,18 +115,17 @@ Section Sim2.
           -- eapply star_trans; [rewrite <- I1; exact S1|]. rewrite I4. cbn [ip set_ip].
              apply star_one. exact ST.
           -- rewrite (set_length _ _ _ _ SET). exact LN1.
-          -- assert (IV6 : inv st4 (dirty st4 r D) s1 rs1).
-             { eapply inv_weaken; [eapply inv_ext; eauto|]. intros. apply dirty_mono. assumption. }
-             eapply inv_set; eauto.
+          -- assert (IV6 : inv F (dirty F r D) s1 rs1).
+             { eapply inv_weaken; [exact IVa|]. intros. apply dirty_mono. assumption. }
+             eapply (inv_setF st); eauto.
              destruct r.
              ++ destruct SH as (-> & _). cbn in OR. discriminate.
              ++ destruct SH as (-> & SH1 & SH2). cbn in OR. inversion OR; subst reg.
-                left. rewrite (ext_tbase _ _ E0'). lia.
+                left. lia.
              ++ destruct SH as (-> & ->). cbn in OR. inversion OR; subst reg.
                 destruct (DO _ eq_refl) as (_ & [Hd|[Hd _]] & _).
-                ** right. split; [pose proof (ext_len _ _ E0'); lia|].
-                   intros x Sx. unfold dirty. rewrite Sx, N.eqb_refl. apply orb_true_r.
-                ** left. rewrite (ext_tbase _ _ E0'). assumption.
+                ** right. split; [assumption|]. intros x Sx. apply dirty_self. assumption.
+                ** left. assumption.
           -- intros ro0 RO. assert (ro0 = reg) by congruence. subst. eapply get_set_same; eauto.
           -- intros k K1 K2 K3. rewrite (get_set_other _ _ _ _ k SET); [apply FR0; auto|].
              intros ->. destruct r.
@@ -140,7 +140,7 @@ Section Sim2.
         destruct (TOT RN va) as (w & FW). rewrite FW.
         exists rs1. splits; auto.
         * rewrite <- I1, I4. exact S1.
-        * eapply inv_weaken; [eapply inv_ext; eauto|]. intros. apply dirty_mono. assumption.
+        * eapply inv_weaken; [exact IVa|]. intros. apply dirty_mono. assumption.
         * intros ro0 RO. congruence.
         * intros k K1 K2 K3. apply FR0; auto.
         * intros x AX. rewrite HAs in AX. auto.
@@ -230,10 +230,11 @@ Section Sim2.
         * destruct SH as (-> & ->). split; [reflexivity|assumption].
         * left. destruct SH as (-> & SH1 & SH2). split; [reflexivity|]. lia.
         * destruct SH as (-> & ->). split; [reflexivity|assumption].
-    - intros n s rs D prog brk K IV RD DO B CA. destruct n; [exact Logic.I|]. cbn [eval].
+    - intros n s rs D prog brk F EF WF K IV RD DO B CA. destruct n; [exact Logic.I|]. cbn [eval].
+      assert (EF2 : ext st2 F) by (eapply ext_trans; eauto).
+      assert (EF0 : ext st F) by (eapply ext_trans; eauto).
       cbn [known_expr] in K.
       norm_code CA. apply cares_app in CA as [CA1 CA]. apply cares_cons in CA as [CA2 CA3]; [|try reflexivity].
-      assert (IV1 : inv st1 D s rs) by (eapply inv_ext; eauto).
       assert (RDa : forall y, D y = true -> reads y a = false).
       { intros y Dy. apply RD in Dy. cbn in Dy. apply orb_false_elim in Dy. tauto. }
       assert (DX : D x = false).
@@ -241,10 +242,11 @@ Section Sim2.
       assert (B1 : tbase st1 + tused st2 <= N.of_nat (length rs)).
       { pose proof (ext_used _ _ E2'). lia. }
       rewrite <- I1 in CA1.
-      specialize (DA n s rs D prog brk K IV1 RDa (dest_ok_any _ _ _ _) B1 CA1).
+      specialize (DA n s rs D prog brk F EF2 WF K IV RDa (dest_ok_any _ _ _ _) B1 CA1).
       destruct (eval n s a) as [va s1| | | |]; try contradiction; [|rewrite <- I1; exact DA|exact Logic.I].
       destruct DA as (rs1 & S1 & LN1 & IVa & RA & FRa & SFa).
       apply dirty_any in IVa. specialize (RA _ ORR).
+      assert (SXF : slot_of F x = Some lx) by (eapply ext_slot; [exact EF2|exact SX2]).
       assert (GX1 : get rs1 lx = Some (s1 x)) by (eapply inv_agree; eauto).
       assert (CA2' : code_at prog (ip st2) [IArithAssign o lx rreg]).
       { rewrite IA, I1. exact CA2. }
@@ -256,7 +258,7 @@ Section Sim2.
       { unfold get in GX1. assert (nth_error rs1 (N.to_nat lx) <> None) by congruence.
         apply nth_error_Some in H. lia. }
       destruct (set_ok rs1 lx rv LXL) as (rs2 & SET). unfold put in ST. rewrite SET in ST.
-      assert (IV2 : inv st2 D (upd s1 x rv) rs2) by (eapply inv_assign_set; eauto).
+      assert (IV2 : inv F D (upd s1 x rv) rs2) by (eapply inv_assign_set; eauto).
       assert (S2 : star pool prog (ip st) rs (ip st3) rs2).
       { eapply star_trans; [rewrite <- I1; exact S1|]. apply star_one. exact ST. }
       assert (FR0 : forall k, k < tbase st + tcount st ->
@@ -287,18 +289,17 @@ Section Sim2.
         exists rs3. splits.
         * eapply star_trans; [exact S2|]. rewrite I5. cbn [ip set_ip size]. apply star_one. exact ST3.
         * rewrite (set_length _ _ _ _ SET3), (set_length _ _ _ _ SET). exact LN1.
-        * assert (IV6 : inv st5 (dirty st5 r D) (upd s1 x rv) rs2).
-          { eapply inv_weaken; [eapply inv_ext; eauto|]. intros. apply dirty_mono. assumption. }
-          eapply inv_set; eauto.
+        * assert (IV6 : inv F (dirty F r D) (upd s1 x rv) rs2).
+          { eapply inv_weaken; [exact IV2|]. intros. apply dirty_mono. assumption. }
+          eapply (inv_setF st); eauto.
           destruct r.
           -- destruct SH as (-> & _). cbn in OR. discriminate.
           -- destruct SH as (-> & SH1 & SH2). cbn in OR. inversion OR; subst reg.
-             left. rewrite (ext_tbase _ _ E0'). lia.
+             left. lia.
           -- destruct SH as (-> & ->). cbn in OR. inversion OR; subst reg.
              destruct (DO _ eq_refl) as (_ & [Hd|[Hd _]] & _).
-             ++ right. split; [pose proof (ext_len _ _ E0'); lia|].
-                intros y Sy. unfold dirty. rewrite Sy, N.eqb_refl. apply orb_true_r.
-             ++ left. rewrite (ext_tbase _ _ E0'). assumption.
+             ++ right. split; [assumption|]. intros y Sy. apply dirty_self. assumption.
+             ++ left. assumption.
         * intros ro0 RO. assert (ro0 = reg) by congruence. subst. eapply get_set_same; eauto.
         * intros k K1 K2 K3. rewrite (get_set_other _ _ _ _ k SET3); [apply FR0; auto|].
           intros ->. destruct r.
@@ -309,7 +310,7 @@ Section Sim2.
       + exists rs2. splits; auto.
         * rewrite I5. exact S2.
         * rewrite (set_length _ _ _ _ SET). exact LN1.
-        * eapply inv_weaken; [eapply inv_ext; eauto|]. intros. apply dirty_mono. assumption.
+        * eapply inv_weaken; [exact IV2|]. intros. apply dirty_mono. assumption.
         * intros ro0 RO. congruence.
         * intros k K1 K2 K3. apply FR0; auto.
   Qed.
